@@ -596,6 +596,46 @@ def enumerate_small(maxlen, base):
     return rec([], maxlen), len(alpha)
 
 
+def line_coverage(ctx, hs):
+    """thorough tier: which lines of the modelled functions of fibre.c (and of list.c) the generated histories reach
+    (gcov on a separate build; informational: generator quality is measured, not assumed)"""
+    import re
+    d = os.path.join(ctx.tmp, 'cov')
+    os.makedirs(d, exist_ok=True)
+    R = vlib.REPO
+    cmd = ['gcc', '-g', '-O0', '--coverage', '-D' + vlib.GUARD, '-I' + R + '/include', '-I' + os.path.join(vlib.VERIF, 'harness'), '-I' + R + '/librfn',
+           '-o', os.path.join(d, 'hc'), os.path.join(vlib.VERIF, 'harness/h_sched.c'), R + '/librfn/list.c', R + '/librfn/messageq.c',
+           R + '/librfn/util.c', R + '/librfn/posix/time_posix.c']
+    rc, o, e = vlib.sh(cmd, timeout=300, cwd=d)
+    if rc != 0:
+        return {'error': (o + e)[-300:]}
+    vlib.sh([os.path.join(d, 'hc')], input=text_of(hs), timeout=600, cwd=d)
+    out = {}
+    for gcda, src in (('hc-h_sched.gcda', 'fibre.c'), ('hc-list.gcda', 'list.c')):
+        vlib.sh(['gcov', '-o', d, gcda], timeout=120, cwd=d)
+        try:
+            lines = open(os.path.join(d, src + '.gcov')).read().split('\n')
+        except OSError:
+            out[src] = 'no gcov output'; continue
+        unc, total, skip = [], 0, False
+        for l in lines:
+            m = re.match(r'\s*([^:]+):\s*(\d+):(.*)', l)
+            if not m:
+                continue
+            cnt, no, text = m.group(1).strip(), int(m.group(2)), m.group(3)
+            if text and (text[0].isalpha() or text[0] == '_') and '(' in text and not text.rstrip().endswith(';'):
+                name = re.findall(r'(\w+)\s*\(', text)
+                # functions outside the modelled scheduler: initialisation helpers, event queues, list_push
+                skip = bool(name) and bool(re.match(r'(fibre_init|fibre_eventq_\w+|list_push)$', name[0]))
+            if cnt == '-' or skip:
+                continue
+            total += 1
+            if cnt == '#####':
+                unc.append(f'{no}: {text.strip()}')
+        out[src] = {'executable_lines_in_modelled_functions': total, 'uncovered': unc}
+    return out
+
+
 # --------------------------------------------------------------------------- the check
 def run_sched(ctx, meta, modules, required, flavor, allow_extra_axioms=None):
     rng = vlib.Rng(ctx.seed * 3 + {'C01': 0, 'C02': 1, 'C03': 2}[flavor])
@@ -631,7 +671,8 @@ def run_sched(ctx, meta, modules, required, flavor, allow_extra_axioms=None):
     if (ctx.tier == 'thorough' or ctx.broken) and not ctx.violations:
         # exhaustive: every history of length <= 5 over 3 fibres with the reduced alphabet, at a base next to each seam
         total = 0
-        for base in (W32 - 1, W31 - 2):
+        bases = {'C01': (W32 - 1, W31 - 2), 'C02': (W32 - 1,), 'C03': (W31 - 2,)}[flavor]
+        for base in bases:
             it, na = enumerate_small(5 if ctx.tier == 'thorough' else 4, base)
             batch = []
             for h in it:
@@ -644,8 +685,10 @@ def run_sched(ctx, meta, modules, required, flavor, allow_extra_axioms=None):
                 agreed += compare(ctx, exe, batch, f'exhaustive small scope (base {base})', stats); total += len(batch)
             if ctx.violations or ctx.broken:
                 break
-        ctx.cov['exhaustive'] = f'all {total} histories of length <= {5 if ctx.tier == "thorough" else 4} over 3 fibres, alphabet of {na} ops, time base next to both wrap seams'
+        ctx.cov['exhaustive'] = f'all {total} histories of length <= {5 if ctx.tier == "thorough" else 4} over 3 fibres, alphabet of {na} ops, time base(s) {[hex(b) for b in bases]} (next to a wrap seam)'
         ctx.cov['evaluations'] += total
+    if ctx.tier == 'thorough' and not ctx.violations:
+        ctx.cov['line_coverage'] = line_coverage(ctx, hs[:4000])
     ctx.cov['traces_validated_against_impl'] = agreed
     ctx.cov['ops_total'] = sum(len(h) for h in hs)
     ctx.cov['histograms'] = stats.get('hist', {})
